@@ -495,14 +495,17 @@ pub fn menu(fmt: Fmt, alpha: Alpha, quick: bool) -> Vec<GenSpec> {
         _ => (0..ns).collect(),
     };
     if protein {
-        v.push(GenSpec { widths: vec![1], meta_off: 1, order_off: 1, style_off: 1, styles: compact.clone(), ..base(64) });
+        // 20 symbol lines per record: the 64-record protein files are left to the thorough tier
+        if !quick {
+            v.push(GenSpec { widths: vec![1], meta_off: 1, order_off: 1, style_off: 1, styles: compact.clone(), ..base(64) });
+        }
     } else {
         v.push(GenSpec { widths: vec![1, 2, 7], meta_off: 1, order_off: 1, style_off: 1, ..base(64) });
     }
     // (g) hundreds of records: many buffer compactions.  Cost of the single-cut sweep is quadratic in the
     // file length, so the quick tier uses compact records (and DNA only); thorough adds the large ones.
     if !protein {
-        v.push(GenSpec { widths: if fmt == Fmt::Uniprobe { vec![1] } else { vec![1, 2] }, modes: vec![0, 3], meta_off: 2, order_off: 2, styles: if fmt == Fmt::Transfac { vec![3] } else { compact.clone() }, vv: true, ..base(300) });
+        v.push(GenSpec { widths: vec![1], modes: vec![0, 3], meta_off: 2, order_off: 2, styles: if fmt == Fmt::Transfac { vec![3] } else { compact.clone() }, vv: true, ..base(300) });
     }
     if !quick {
         v.push(GenSpec { widths: vec![1, 2], modes: vec![0, 1, 3], meta_off: 2, order_off: 2, vv: true, ..base(300) });
